@@ -62,8 +62,11 @@ SNIArgs == << Names[1], Example, <<49,48,46,48,46,48,46,49>>,                   
               <<>>, Names[2], Long253 >>
 \* values assigned directly to SNIExtension.ServerName
 FieldArgs == << Names[3], <<49,57,50,46,49,54,56,46,49,46,50,53,53>>, <<>>, Names[4] >>            \* 192.168.1.255
-SNIChoice  == IF SNIAll THEN SNIArgs ELSE <<Names[nmut + 1]>>
-FieldChoice == IF SNIAll THEN FieldArgs ELSE <<Names[nmut + 1]>>
+SNIChoice   == IF SNIAll THEN SNIArgs ELSE Names
+FieldChoice == IF SNIAll THEN FieldArgs ELSE Names
+\* hostnameInSNI of every argument (constant tables)
+SNINorm     == [i \in DOMAIN SNIChoice |-> HostnameInSNI(SNIChoice[i])]
+FieldNorm   == [i \in DOMAIN FieldChoice |-> HostnameInSNI(FieldChoice[i])]
 
 \* ------------------------------------------------------------------ abstract content
 X(t, b) == [type |-> t, body |-> b, omit |-> FALSE]
@@ -140,20 +143,20 @@ MSetClientRandom ==
   /\ SetClientRandom(RandV(K))
   /\ hello' = [hello EXCEPT !.random = RandV(K)] /\ UNCHANGED <<cfgSNI, exts>>
 MSetSNI ==
-  \E a \in Range(SNIChoice) :
-  /\ Mut([op |-> "SetSNI", name |-> a])
-  /\ SetSNI(HostnameInSNI(a))
-  /\ cfgSNI' = HostnameInSNI(a)
-  /\ exts' = [i \in DOMAIN exts |-> IF exts[i].type = 0 THEN XS(HostnameInSNI(a)) ELSE exts[i]]
+  \E i \in (IF SNIAll THEN DOMAIN SNIChoice ELSE {K}) :
+  /\ Mut([op |-> "SetSNI", name |-> SNIChoice[i]])
+  /\ SetSNI(SNINorm[i])
+  /\ cfgSNI' = SNINorm[i]
+  /\ exts' = [j \in DOMAIN exts |-> IF exts[j].type = 0 THEN XS(SNINorm[i]) ELSE exts[j]]
   /\ UNCHANGED hello
 \* the caller assigns SNIExtension.ServerName in UConn.Extensions; ApplyConfig copies it into the Config at the next build
 HasSNIExt == \E i \in DOMAIN exts : exts[i].type = 0
 MExtSNIField ==
-  \E a \in Range(FieldChoice) :
-  /\ Mut([op |-> "ExtSNIField", name |-> a])
-  /\ ExtSNIField(HostnameInSNI(a), HasSNIExt)
-  /\ cfgSNI' = IF HasSNIExt THEN HostnameInSNI(a) ELSE cfgSNI
-  /\ exts' = [i \in DOMAIN exts |-> IF exts[i].type = 0 THEN XS(HostnameInSNI(a)) ELSE exts[i]]
+  \E i \in (IF SNIAll THEN DOMAIN FieldChoice ELSE {K}) :
+  /\ Mut([op |-> "ExtSNIField", name |-> FieldChoice[i]])
+  /\ ExtSNIField(FieldNorm[i], HasSNIExt)
+  /\ cfgSNI' = IF HasSNIExt THEN FieldNorm[i] ELSE cfgSNI
+  /\ exts' = [j \in DOMAIN exts |-> IF exts[j].type = 0 THEN XS(FieldNorm[i]) ELSE exts[j]]
   /\ UNCHANGED hello
 MRemoveSNI ==
   /\ Mut(Op("RemoveSNI"))
